@@ -1394,13 +1394,14 @@ class Config:  # pylint: disable=too-many-instance-attributes
             return held.to_tree(virtual=virtual, sensitive_mask=sensitive_mask)
         if (
             isinstance(held, (list, tuple))
-            and isinstance(basic, list)
+            and isinstance(basic, (list, tuple))
             and len(held) == len(basic)
         ):
-            return [
+            # an untyped field hands a held tuple back as it is: walked like a list, kept a tuple
+            return type(basic)(
                 self._render_nested(item, rendered, virtual, sensitive_mask)
                 for item, rendered in zip(held, basic)
-            ]
+            )
         if isinstance(held, dict) and isinstance(basic, dict) and len(held) == len(basic):
             return {
                 key: self._render_nested(item, rendered, virtual, sensitive_mask)
